@@ -292,14 +292,24 @@ inline const char* signame(int s) {
 
 // Run `body` with traps captured.  Returns true if it completed, false if a signal was raised
 // (in which case a "trap" violation has been recorded with the inputs string set by the caller).
-#define VK_GUARDED(cls_, inputs_expr_, body_)                                               \
+// The sigsetjmp lives in a tiny non-inlined function with no locals of its own: everything the body touches is
+// captured by reference (i.e. lives in the caller's frame memory), so nothing is clobbered by the longjmp.
+template<class F>
+__attribute__((noinline)) bool guarded_call(F&& f) {
+    TrapCtx& t = trap();
+    if (sigsetjmp(t.env, 0) == 0) {
+        t.armed = 1;
+        f();
+        t.armed = 0;
+        return true;
+    }
+    return false;
+}
+
+#define VK_GUARDED(cls_, inputs_expr_, ...)                                                 \
     do {                                                                                     \
-        ::vk::TrapCtx& vk_t_ = ::vk::trap();                                                 \
-        if (sigsetjmp(vk_t_.env, 0) == 0) {                                                  \
-            vk_t_.armed = 1;                                                                 \
-            body_;                                                                           \
-            vk_t_.armed = 0;                                                                 \
-        } else {                                                                             \
+        if (!::vk::guarded_call([&]() __VA_ARGS__)) {                                              \
+            ::vk::TrapCtx& vk_t_ = ::vk::trap();                                             \
             ::vk::cell().traps++;                                                            \
             char vk_b_[64];                                                                  \
             std::snprintf(vk_b_, sizeof vk_b_, "%s@%p", ::vk::signame(vk_t_.sig), vk_t_.addr);\
